@@ -67,6 +67,16 @@ inductive URes
   | unmodelled
 deriving Repr, BEq
 
+/-- `elem == nil` on an interface value -/
+def GoVal.isNil : GoVal → Bool
+  | .nil => true
+  | _ => false
+
+/-- `field.Kind() == reflect.Ptr && field.IsNil()` -/
+def GoVal.isNilPtr : GoVal → Bool
+  | .nilptr => true
+  | _ => false
+
 def optM (o : Option Bytes) : MRes := match o with | some b => .ok (some b) | none => .err
 
 /-! ## Marshal: scalar columns (no recursion) -/
@@ -81,7 +91,10 @@ def marshalIntColumn (col : IntCol) : GoVal → MRes
   | .int k named v => optM (marshalIntKind col k named v)
   | .dur ns => optM (marshalIntKind col .int64 true ns)
   | .str false s => optM (marshalIntString col s)
-  | .big v => if col = .big then .ok (some (encBigInt2C v)) else .err
+  -- big.Int: only marshalBigInt has the case; `v.IsInt64()` or an error, then the 8 bytes of `v.Int64()`
+  | .big v => if col = .big then
+      (if ValueSpec.leB (-9223372036854775808) v && ValueSpec.ltB v 9223372036854775808 then .ok (some (encBigInt v)) else .err)
+      else .err
   | _ => .err
 
 def marshalVarintColumn : GoVal → MRes
@@ -151,7 +164,7 @@ def marshalScalar (t : CqlTy) (g : GoVal) : MRes :=
       | .dur ns => .ok (some (encVints 0 0 ns))
       | .cqldur m d n => .ok (some (encVints m d n))
       | .str false s => if s = [] then .err else .unmodelled
-      | .int .int64 true v => .ok (some (encBigInt v))          -- reflect.Int64 fallback: 8 raw bytes
+      | .int .int64 true v => .ok (some (encVints 0 0 v))        -- reflect.Int64 fallback: vints as well
       | _ => .err)
   | .uuid | .timeuuid => (match g with
       | .unset | .nil => .ok none
@@ -186,13 +199,7 @@ def collItem (p : Nat) (item : Option Bytes) : Option Bytes :=
   | none => (collSize p (if p > 2 then -1 else 0))
   | some b => (collSize p b.length).map (· ++ b)
 
-/-- `appendInt(buf, int32(n)); append(buf, data...)` of marshalTuple (a nil `data` is written as length 0) -/
-def tupleItem (item : Option Bytes) : Bytes :=
-  match item with
-  | none => encInt 0
-  | some b => encInt (toS 32 b.length) ++ b
-
-/-- frame.go appendBytes: −1 for nil -/
+/-- frame.go appendBytes: −1 for nil (marshalTuple and marshalUDT write every field with it) -/
 def appendBytes (item : Option Bytes) : Bytes :=
   match item with
   | none => encInt (-1)
@@ -261,7 +268,7 @@ def marshal (p : Nat) (t : CqlTy) : GoVal → MRes
         | _ => .err)
     | .tuple ts => (match g with
         | .unset => .err
-        | .nil => .crash                      -- reflect.ValueOf(nil).Type() panics
+        | .nil => .ok none                    -- `if value == nil { return nil, nil }`
         | .ifaces vs => if vs.length ≠ ts.length then .err else wrapTuple ts (marshalTupleIfaces p ts vs)
         | .struct vs => if vs.length ≠ ts.length then .err else wrapTuple ts (marshalTupleFields p ts vs)
         | .udtstruct _ vs => if vs.length ≠ ts.length then .err else wrapTuple ts (marshalTupleFields p ts vs)
@@ -305,32 +312,26 @@ def marshalPairs (p : Nat) (kt vt : CqlTy) : List (GoVal × GoVal) → MRes
               | other => other))
       | other => other)
 
-/-- marshalTuple, `case []interface{}`: only an untyped nil element is written as −1 -/
+/-- marshalTuple, `case []interface{}`: an untyped nil element (`elem == nil`) is written as −1 without calling
+    Marshal; every other element is marshalled and written with appendBytes (−1 for a nil encoding) -/
 def marshalTupleIfaces (p : Nat) : List CqlTy → List GoVal → MRes
   | t :: ts, v :: vs =>
-    (match v with
-     | .nil => (match marshalTupleIfaces p ts vs with
-         | .ok (some rest) => .ok (some (encInt (-1) ++ rest))
+    (match (if v.isNil then MRes.ok none else marshal p t v) with
+     | .ok item => (match marshalTupleIfaces p ts vs with
+         | .ok (some rest) => .ok (some (appendBytes item ++ rest))
          | other => other)
-     | v => (match marshal p t v with
-         | .ok item => (match marshalTupleIfaces p ts vs with
-             | .ok (some rest) => .ok (some (tupleItem item ++ rest))
-             | other => other)
-         | other => other))
+     | other => other)
   | _, _ => .ok (some [])
 
-/-- marshalTuple, struct / slice / array: a nil pointer field is written as −1 -/
+/-- marshalTuple, struct / slice / array: a nil pointer field is written as −1 without calling Marshal; every
+    other field is marshalled and written with appendBytes (−1 for a nil encoding) -/
 def marshalTupleFields (p : Nat) : List CqlTy → List GoVal → MRes
   | t :: ts, v :: vs =>
-    (match v with
-     | .nilptr => (match marshalTupleFields p ts vs with
-         | .ok (some rest) => .ok (some (encInt (-1) ++ rest))
+    (match (if v.isNilPtr then MRes.ok none else marshal p t v) with
+     | .ok item => (match marshalTupleFields p ts vs with
+         | .ok (some rest) => .ok (some (appendBytes item ++ rest))
          | other => other)
-     | v => (match marshal p t v with
-         | .ok item => (match marshalTupleFields p ts vs with
-             | .ok (some rest) => .ok (some (tupleItem item ++ rest))
-             | other => other)
-         | other => other))
+     | other => other)
   | _, _ => .ok (some [])
 
 /-- every named Go field / map entry marshalled with the type of the UDT field of the same name
